@@ -22,27 +22,46 @@ func init() {
 	engine.Register(&engine.Prop{
 		ID:    "C09",
 		Level: "exploration",
-		Rule: "three families, each enumerated exhaustively within its bound: r = byte strings given to Read / ReadStream / " +
+		Rule: "families, each enumerated exhaustively within its bound: r = byte strings given to Read / ReadStream / " +
 			"ReadStream in 1-byte chunks / read-from-string; f = every exported function of every slip package x every argument " +
 			"tuple over the object pool (objects rebuilt per case, bound to variables, call read from text and evaluated; functions " +
 			"that do not evaluate their arguments are additionally given the objects as literal operands); m = format control " +
-			"strings built from directive x modifiers x prefix parameters x argument lists. A case is non-trivial when the " +
-			"function got past its argument-count check (value, or a condition other than too few/too many arguments) / the text " +
-			"contains a byte with a syntactic role / format got past directive lookup",
+			"strings built from directive x modifiers x prefix parameters x argument lists. The pool is complete by construction " +
+			"(p: every class of (list-all-classes) and every make-... constructor has a pool object or a stated excuse) and holds objects " +
+			"in odd states (closed streams of every kind, instance of a removed flavor / of a redefined class, deleted package, generic " +
+			"function without methods). k = every pool object as key of a hash table of every test and as element given to every built-in " +
+			"that hashes or compares; g = every start/end pair over {0 1 3 5 6 -1 nil} on sequences of length 5 x every function that " +
+			"takes a range x kind of sequence; z = every count / size / index / dimension / width / radix parameter x " +
+			"{2 0 -1 2^31 2^32 2^62 2^63-1 -2^63 2^64 10^30} (x {2^16 2^21} where the product of several matters) with otherwise valid " +
+			"arguments; u = every built-in that calls a function for the elements of a container x container kind x mutation of that " +
+			"container by the callback x callback result; d = reader texts of n openers (with / without closers) and tokens of n " +
+			"characters; e = programs that recurse without end, nested data and self-containing data x every built-in that walks a " +
+			"structure. z, u, d, e run in a helper process (8 s, 3 GiB; d and e with a 250 MB Go stack): a value (z: of at most " +
+			"array-dimension-limit elements) or a Lisp condition is demanded, a dead or silent helper is attributed to the case. " +
+			"A case is non-trivial when the function got past its argument-count check (value, or a condition other than too few/too " +
+			"many arguments) / the text contains a byte with a syntactic role / format got past directive lookup; every g, k, z, d, e " +
+			"case and every u case with a mutation is",
 		Assumptions: []string{
 			"a Go runtime fault is recognised by its message (runtime error:, interface conversion:, unhashable, nil map, makeslice, " +
-				"closed channel ...) on a condition manufactured by slip's catch-all (Panic.Value set), or by a raw non-condition panic value",
+				"closed channel, math/big and strings library panics ...) on a condition manufactured by slip's catch-all (Panic.Value set), or by a raw non-condition panic value",
 			"functions that block, destroy or reach outside the process BY CONTRACT with the given arguments are not called " +
 				"(explicit exclusion list with reasons in funcs.go: loop, sleep n>0, send-signal, signal-wait, run, make-app, benchmark, " +
-				"swank server starters, DNS/HTTP lookups)",
+				"swank server starters, DNS/HTTP lookups, waiting on an empty socket set); dotimes / loop repeat / sleep are not given huge counts",
 			"calls known to kill or hang the process run in a child process of their own (5 s, 3 GiB) and are reported with a specific " +
 				"signature; any other death is reported by the engine as worker:fatal / worker:hang",
+			"the resource families (z, u, d, e) run in a helper process that serves at most 64 failure-free cases; running out of time, of " +
+				"memory and of stack are reported as one kind (unbounded); d and e use Go's 32-bit default stack limit (250 MB) so that " +
+				"endless recursion is met in a fraction of a second; nested data stays at depth 3000 (thorough 10^4; 10^5 / 10^6 for the reader), where every " +
+				"built-in of the unchanged tree finishes far inside the deadline (printing takes time quadratic in the depth)",
 			"random / time dependent results only influence the outcome digest, never a verdict",
 		},
-		Enumerate:     enumerate,
-		Exec:          execCase,
-		Required:      []string{"fn-value", "fn-condition", "fn-type-error", "fn-arg-count-error", "reader-value", "reader-condition", "reader-partial", "format-value", "format-condition", "catch-all-conversions"},
-		CaseDeadlineS: 10,
+		Enumerate: enumerate,
+		Exec:      execCase,
+		Required: []string{"fn-value", "fn-condition", "fn-type-error", "fn-arg-count-error", "reader-value", "reader-condition", "reader-partial", "format-value", "format-condition", "catch-all-conversions",
+			"pool-classes-covered", "pool-constructors-covered", "keyed-value", "keyed-condition", "range-value", "range-condition",
+			"size-value", "size-condition", "size-template-valid", "mutating-value", "mutating-condition", "deep-reader-value",
+			"deep-reader-condition", "deep-eval-value", "deep-eval-condition", "isolated"},
+		CaseDeadlineS: 20,
 		Bound:         bound,
 		Selftest:      selftest,
 	})
@@ -67,6 +86,27 @@ func enumerate(tier string, emit func(string)) {
 	if only("b") {
 		enumBare(emit)
 	}
+	if only("p") {
+		enumCoverage(emit)
+	}
+	if only("k") {
+		enumKeyed(tier, emit)
+	}
+	if only("g") {
+		enumRanges(tier, emit)
+	}
+	if only("u") {
+		enumMutating(tier, emit)
+	}
+	if only("z") {
+		enumSize(tier, emit)
+	}
+	if only("d") {
+		enumDeepReader(tier, emit)
+	}
+	if only("e") {
+		enumDeepEval(tier, emit)
+	}
 }
 
 func execCase(spec string) engine.Result {
@@ -75,6 +115,8 @@ func execCase(spec string) engine.Result {
 	}
 	execCalls++
 	switch {
+	case spec == "helper|":
+		return serveHelper()
 	case strings.HasPrefix(spec, "f|"):
 		return execFunc(spec)
 	case strings.HasPrefix(spec, "r|"):
@@ -83,6 +125,20 @@ func execCase(spec string) engine.Result {
 		return execFormat(spec)
 	case strings.HasPrefix(spec, "b|"):
 		return execBare(spec)
+	case strings.HasPrefix(spec, "p|"):
+		return execCoverage(spec)
+	case strings.HasPrefix(spec, "k|"):
+		return execKeyed(spec)
+	case strings.HasPrefix(spec, "g|"):
+		return execRange(spec)
+	case strings.HasPrefix(spec, "u|"):
+		return execMutating(spec)
+	case strings.HasPrefix(spec, "z|"):
+		return execSize(spec)
+	case strings.HasPrefix(spec, "d|"):
+		return execDeepReader(spec)
+	case strings.HasPrefix(spec, "e|"):
+		return execDeepEval(spec)
 	}
 	var res engine.Result
 	res.Fail("harness:bad-spec", spec)
@@ -95,20 +151,32 @@ func bound(tier string) string {
 	}
 	nf := len(allFunctions())
 	np := len(fullPool)
+	cov, tot, _ := sizeCoverage()
+	extra := fmt.Sprintf("; keyed: %d operations x the %d pool objects; ranges: %d templates x sequence kinds x %d^2 (start, end) pairs; sizes: %d "+
+		"templates (covering %d of the %d parameters documented as fixnum / integer) x %d values (+ %d product values on multi-hole templates); "+
+		"mutating callbacks: %d templates x container kinds x mutations x 2 results; reader depth: %d nest shapes x n in %v (open / closed) and %d "+
+		"token shapes x n in %v, 3 APIs; evaluation depth: ", len(keyedOps), np, len(rangeTemplates), len(rangeValues), len(sizeTemplates), cov, tot,
+		len(sizeValues), len(productValues), len(mutTemplates), len(nestShapes), nestSizes(tier), len(tokenShapes), tokenSizes(tier))
+	if tier == engine.Thorough {
+		extra += fmt.Sprintf("%d recursive programs, %d data shapes (nested ones at depth %d) x %d operations", len(deepPrograms), len(deepData), nestedDepth(tier), len(deepOps))
+	} else {
+		extra += fmt.Sprintf("%d of %d recursive programs, %d of %d data shapes (nested ones at depth %d) x %d of %d operations (the rest: thorough tier)",
+			len(quickDeepPrograms), len(deepPrograms), len(quickDeepData), len(deepData), nestedDepth(tier), len(quickDeepOps), len(deepOps))
+	}
 	if tier == engine.Thorough {
 		return fmt.Sprintf("reader: every byte string of length <= 2 over all 256 bytes (4 APIs), length 3 over all 256 bytes (Read), "+
 			"length <= 4 over %d syntax bytes (Read, ReadStream), length <= 6 over the 12 bytes %q (4 APIs); functions: %d exported "+
 			"functions x the 0-tuple, all 1-tuples and all 2-tuples over the %d-object pool, all 3-tuples over %d objects; format: every "+
 			"byte as directive x 4 modifier sets x %d parameter shapes x %d argument lists, every ordered pair of the %d real single "+
 			"directives, %d wrappers x every single, the huge literal parameter on every directive x 4 modifier sets",
-			len(syntax48), string(syntax12), nf, np, len(tripleNames), len(fmtParams), len(fmtArgLists), len(singles(directiveChars)), len(wrappers))
+			len(syntax48), string(syntax12), nf, np, len(tripleNames), len(fmtParams), len(fmtArgLists), len(singles(directiveChars)), len(wrappers)) + extra
 	}
 	return fmt.Sprintf("reader: every byte string of length <= 2 over all 256 bytes (4 APIs), length <= 5 over the 12 bytes %q (Read, "+
 		"ReadStream; <= 4 for 1-byte chunks and read-from-string); functions: %d exported functions x the 0-tuple, all 1-tuples over the "+
 		"%d-object pool and all 2-tuples over a %d-object sub-pool; format: every byte as directive x 4 modifier sets x %d parameter "+
 		"shapes x %d argument lists, every ordered pair over a %d-directive core, %d wrappers x every directive x 4 modifier sets, the "+
 		"huge literal parameter on every directive",
-		string(syntax12), nf, np, len(quickPairNames), len(fmtParams), len(fmtArgLists), len(core66()), len(wrappers))
+		string(syntax12), nf, np, len(quickPairNames), len(fmtParams), len(fmtArgLists), len(core66()), len(wrappers)) + extra
 }
 
 // execCalls counts the cases this process has been given (1:1 with the
@@ -146,6 +214,14 @@ func restartWorker() {
 	env := baseEnv
 	if env == nil {
 		env = os.Environ()
+	}
+	if engine.ProtoOut() != os.Stdout {
+		// the engine took VERIF_PROTO_FD out of the environment when this image started; the next image must find it
+		// again or its protocol lines (and its summary) go to the discarded standard output
+		env = append(append([]string{}, env...), "VERIF_PROTO_FD=3")
+	}
+	if theHelper != nil {
+		theHelper.stop()
 	}
 	_ = os.Chdir("/")
 	_ = os.RemoveAll(scratchDir)
